@@ -74,6 +74,8 @@ def _session_names(func):
                     metas.add(N.txt(second))
                 if N.txt(sub.value).endswith('zkclient.client_id'):
                     sids.add(N.txt(first))
+                    # ... and what copy propagation makes of that local
+                    sids.add('%s[0]' % N.txt(sub.value))
         _NAMES[key] = (metas, sids)
     return _NAMES[key]
 
